@@ -1,5 +1,5 @@
 (* C06/Properties.v — property theorems only. *)
-From Relic Require Import Base.Prelude Generated.C06_gen C06.Model C06.Proofs.
+From Relic Require Import Base.Prelude Generated.C06_gen C06.Model C06.Proofs C06.Append C06.AppendProofs.
 From Coq Require Import Permutation.
 
 (* server: a response carrying a signature is preceded by exactly one delivered record per configured sink,
@@ -109,3 +109,109 @@ Example healthy_batch :
   let t := serve_all true true [mkReq true true true true; mkReq true false true true; mkReq true true true true] in
   count_200 t = 2%nat /\ count_ok_amqp t = 2%nat /\ count_ok_append t = 2%nat.
 Proof. repeat split; reflexivity. Qed.
+
+(* ====================================================================================================================
+   "Under concurrent requests the audit file remains exactly one complete JSON object per line."
+   System-call level (C06/Append.v): append_prog is lib/audit Info.AppendTo translated statement by statement. *)
+
+(* whatever the length of the record (up to the runtime's cap on one write(2), os_max_rw = 2^30), the generated program
+   hands the record and its line feed to write(2) in exactly ONE call *)
+Theorem appendto_one_write : forall r, zlen r + 1 <= os_max_rw -> emit_prog r = [r ++ [nl]].
+Proof. exact C06.AppendProofs.appendto_one_write. Qed.
+
+(* the descriptor is opened O_APPEND (every write(2) lands at the end of the file) and never truncated *)
+Theorem appendto_open_flags :
+  append_open_append = true /\ append_open_trunc = false /\ append_open_create = true /\ append_open_writable = true.
+Proof. exact C06.AppendProofs.appendto_open_flags. Qed.
+
+(* the model-independent fact, for EVERY way of emitting a line (any split into write(2) calls, empty ones included), any
+   number of concurrent records of every length in [dom], and EVERY interleaving of the calls:
+   the file is always one record per line  <->  every record reaches the file in a single non-empty write *)
+Theorem one_write_iff_wellformed : forall (dom : bytes -> Prop) (emit : bytes -> list bytes),
+  (forall r, dom r -> no_nl r = true) ->
+  (forall r, dom r -> concat (emit r) = r ++ [nl]) ->
+  (wellformed_always dom emit <-> forall r, dom r -> nonempty (emit r) = [r ++ [nl]]).
+Proof. exact C06.AppendProofs.one_write_iff_wellformed. Qed.
+
+(* one direction spelled out: a record written in pieces can be torn in the company of ANY other records *)
+Theorem split_write_breaks : forall (emit : bytes -> list bytes) r others,
+  no_nl r = true -> Forall (fun o => no_nl o = true) others ->
+  concat (emit r) = r ++ [nl] -> Forall (fun o => concat (emit o) = o ++ [nl]) others ->
+  nonempty (emit r) <> [r ++ [nl]] ->
+  exists evs, interleave (map emit (r :: r :: others)) evs /\ ~ spec_ok (r :: r :: others) (file_after true evs).
+Proof. exact C06.AppendProofs.split_write_breaks. Qed.
+
+(* hence for the code as it is: any number of appenders (goroutines or processes), records of every length, every
+   interleaving of their system calls — the file is exactly the appended records, one per line, nothing torn *)
+Theorem audit_file_one_record_per_line : forall records evs,
+  Forall in_domain records -> interleave (map emit_prog records) evs ->
+  spec_ok records (file_after append_open_append evs).
+Proof. exact C06.AppendProofs.audit_file_one_record_per_line. Qed.
+
+(* AppendTo reports success exactly when open, marshal and the write succeeded; then the complete line is in the file by
+   one successful write(2); otherwise it returns an error and no part of a line is left behind — PROVIDED the write(2) is
+   not short (domain: e_short E 0 = None). With a short write the statement fails: see the witness below. *)
+Theorem appendto_success_iff : forall E r, zlen r + 1 <= os_max_rw -> e_short E 0%nat = None ->
+  let s := run_append E r in
+  (s_ret s = Some true <-> e_open_ok E = true /\ e_marshal_ok E = true /\ e_fail E 0%nat = false) /\
+  (s_ret s = Some true -> s_sys s = [(r ++ [nl], true)] /\ written s = r ++ [nl]) /\
+  (s_ret s <> Some true -> s_ret s = Some false /\ written s = []) /\
+  s_bad s = false.
+Proof. exact C06.AppendProofs.appendto_success_iff. Qed.
+
+(* FINDING (unchanged code): a write(2) that takes only part of the line and is followed by a failing one (disk filling up,
+   RLIMIT_FSIZE) makes AppendTo return an error, correctly, but leaves the piece in the file; the next successful record
+   is appended to it and the line is not a JSON object. Replayed on the real code by the check (mode fsize). *)
+Theorem appendto_short_write_refuted :
+  exists E r, zlen r + 1 <= os_max_rw /\
+    s_ret (run_append E r) = Some false /\ written (run_append E r) = [123; 34] /\
+    spec_lines (written (run_append E r) ++ written (run_append healthy_env r)) = ([[123; 34; 123; 34; 97; 34; 58; 49; 125]], []).
+Proof. exact C06.AppendProofs.appendto_short_write_refuted. Qed.
+
+(* the class of change this part of the unit decides: the same bytes through bufio.Writer (Write, WriteByte, Flush), any
+   buffer size: one write(2) below the buffer size, two from the buffer size on (Write bypasses an empty buffer for
+   large data; a full buffer is flushed before the line feed goes in) — so such appenders CAN tear the file *)
+Theorem bufio_emit : forall size r, zlen r <= os_max_rw -> eff_size size <= os_max_rw ->
+  emit_of (prog_bufio size) r = if zlen r <? eff_size size then [r ++ [nl]] else [r; [nl]].
+Proof. exact C06.AppendProofs.bufio_emit. Qed.
+Theorem bufio_can_tear : forall size, eff_size size + 1 <= os_max_rw -> ~ wellformed_always in_domain (emit_of (prog_bufio size)).
+Proof. exact C06.AppendProofs.bufio_can_tear. Qed.
+
+(* the executable schedules used for the comparison with strace are interleavings in the sense above *)
+Theorem sched_run_interleave : forall sched ws evs, sched_run ws sched = Some evs -> interleave ws evs.
+Proof. exact C06.AppendProofs.sched_run_interleave. Qed.
+
+(* ---- non-vacuity *)
+Example in_domain_inhabited : in_domain [123; 34; 97; 34; 58; 49; 125].
+Proof. split; [reflexivity|]. apply Z.leb_le. vm_compute. reflexivity. Qed.
+Example append_prog_like_single : emit_prog [123; 125] = emit_of prog_single [123; 125] /\ emit_prog [123; 125] = [[123; 125; 10]].
+Proof. split; reflexivity. Qed.
+Example interleaving_exists :
+  interleave (map emit_prog [[1; 2]; [3]]) [(1%nat, [3; 10]); (0%nat, [1; 2; 10])] /\
+  file_after append_open_append [(1%nat, [3; 10]); (0%nat, [1; 2; 10])] = [3; 10; 1; 2; 10] /\
+  spec_lines [3; 10; 1; 2; 10] = ([[3]; [1; 2]], []).
+Proof.
+  split; [|split; reflexivity].
+  apply (C06.AppendProofs.sched_run_interleave [1%nat; 0%nat]). reflexivity.
+Qed.
+(* the default buffer is 4096 bytes: 4095 go out with their line feed, 4096 do not *)
+Example bufio_boundary :
+  map (fun c => zlen c) (emit_of (prog_bufio 0) (repeat 120 4095)) = [4096] /\
+  map (fun c => zlen c) (emit_of (prog_bufio 0) (repeat 120 4096)) = [4096; 1] /\
+  map (fun c => zlen c) (emit_of (prog_bufio 0) (repeat 120 4097)) = [4097; 1].
+Proof. repeat split; vm_compute; reflexivity. Qed.
+(* a torn file, concretely: two 4-byte records through a 4-byte buffer, second appender between the two calls of the first *)
+Example torn_file :
+  let ws := map (emit_of (prog_bufio 4)) [[1; 2; 3; 4]; [5; 6; 7; 8]] in
+  option_map (fun evs => spec_lines (file_after true evs)) (sched_run ws [0; 1; 1; 0]%nat)
+  = Some ([[1; 2; 3; 4; 5; 6; 7; 8]; []], []).
+Proof. vm_compute. reflexivity. Qed.
+(* without O_APPEND every descriptor writes from offset 0: the second record lands on top of the first *)
+Example without_o_append_records_clobber :
+  file_after false [(0%nat, [1; 2; 3; 10]); (1%nat, [7; 10])] = [7; 10; 3; 10].
+Proof. reflexivity. Qed.
+(* a failing write(2) is reported; with a buffered writer whose Flush is checked too, but not by a program that ignores it *)
+Example failing_write_reported :
+  s_ret (run_append (mkEnv true true (fun k => Nat.eqb k 0) (fun _ => None)) [1; 2]) = Some false /\
+  s_ret (run_prog [AOpen 1; AMarshal 1; AAppend [10]; AWrite 0 [PBlob] 0; AReturn true] (mkEnv true true (fun k => Nat.eqb k 0) (fun _ => None)) [1; 2]) = Some true.
+Proof. split; reflexivity. Qed.
